@@ -54,6 +54,8 @@ pub fn output_tokens_for_impl(
         })
         .collect::<syn::Result<Vec<_>>>()?;
     let sub_attributes = analyze_sub_attributes(&attrs);
+    #[cfg(entrait_verif)]
+    crate::verif::point("entrait_impl::analyzed", trait_fns.len());
 
     let trait_generics = generics_analyzer.into_trait_generics();
 
